@@ -3,6 +3,7 @@
 package c15
 
 import (
+	"context"
 	"fmt"
 	"os"
 	"path/filepath"
@@ -28,6 +29,7 @@ const (
 	KCut     = "cut"
 	KQuiesce = "quiesce"
 	KSwitch  = "switch" // converge, then move the primary role to the other candidate
+	KRetain  = "retention" // every transaction file on one node is older than the retention period when the sweep runs
 )
 
 type Step struct {
@@ -76,6 +78,8 @@ func genPlan(t *rapid.T) Plan {
 			st.Kind = KCut
 		case k < 19:
 			st.Kind = KSwitch
+		case k < 20 && rapid.Bool().Draw(t, "retention?"):
+			st.Kind = KRetain
 		default:
 			st.Kind = KQuiesce
 		}
@@ -117,6 +121,18 @@ func runPlan(c *pbt.Case, p Plan) {
 	// races the drop the files are the reader's, not leftovers)
 	readerMade := map[string]bool{}
 	joined := 0
+	// a node that is stopped and started again knows where it was
+	posAtStop := map[*cluster.CNode]ref.Pos{}
+	started := func(i int, n *cluster.CNode) {
+		before, ok := posAtStop[n]
+		if !ok {
+			return
+		}
+		delete(posAtStop, n)
+		if after := n.Pos(dbName); after.TXID < before.TXID || (after.TXID == before.TXID && after != before) {
+			c.Failf("C15/restart-lost-position", "step %d: node %s was stopped at %s and is at %s after its restart", i, n.Name, before, after)
+		}
+	}
 
 	exists := func(path string) bool { _, err := os.Stat(path); return err == nil }
 	// checkDropped: the database is gone from this node, for applications and on disk.
@@ -262,8 +278,29 @@ func runPlan(c *pbt.Case, p Plan) {
 				r.FC.Resume()
 				delete(paused, r)
 			}
+		case KRetain:
+			n := pr
+			if st.Node%2 == 1 && node != nil && node.Up {
+				n = node
+			}
+			old := time.Now().Add(-time.Hour)
+			ents, _ := os.ReadDir(n.LTXDir(dbName))
+			for _, e := range ents {
+				_ = os.Chtimes(filepath.Join(n.LTXDir(dbName), e.Name()), old, old)
+			}
+			keep := n.Store.Retention
+			n.Store.Retention = time.Minute
+			if err := n.Store.EnforceRetention(context.Background()); err != nil {
+				c.Failf("C15/retention-error", "step %d: %v", i, err)
+			}
+			n.Store.Retention = keep
+			c.Label("retention-sweep")
+			if dropped {
+				c.Label("retention-sweep-while-dropped")
+			}
 		case KStop:
 			if node != nil && node.Up {
+				posAtStop[node] = node.Pos(dbName)
 				node.Stop()
 				c.Label("replica-absent")
 			}
@@ -276,6 +313,7 @@ func runPlan(c *pbt.Case, p Plan) {
 					if paused[r] {
 						r.FC.Pause()
 					}
+					started(i, r)
 					c.Label("replica-restarted")
 				}
 			}
@@ -330,6 +368,7 @@ func runPlan(c *pbt.Case, p Plan) {
 					if err := r.Start(); err != nil {
 						c.Failf("C15/restart-failed", "step %d: replica %s cannot reopen its directory: %v", i, r.Name, err)
 					}
+					started(i, r)
 				}
 			}
 			if err := cl.WaitConverged(20 * time.Second); err != nil {
